@@ -1,0 +1,25 @@
+//go:build verif
+
+// Contracts for package apis/model (comment-only; read by /verif/govc).
+
+package model
+
+//@ global ErrUnrecognizedAddrType: v != nil
+
+//@ // SOCKS5 address: ATYP(1) | 4 bytes, 16 bytes or len(1)+name | 2-byte big-endian port.
+//@ // The contract is stated for an in-memory reader (byte k after the cursor is
+//@ // brAt(r, k)); for any other reader only panic-freedom is claimed.
+//@ func (a *AddrSpec) ReadFromSocks5(r io.Reader) (err error)
+//@   property C18 C10 C12
+//@   mode int
+//@   requires a != nil && r != nil
+//@   requires isBR(r) ==> br(r) != nil && 0 <= br(r).i && int(br(r).i) <= len(br(r).s)
+//@   modifies a.IP, a.FQDN, a.Port, ghost(rd)
+//@   modifies payload(r, *bytes.Reader).i when typeof(r) == typeid(*bytes.Reader)
+//@   modifies payload(r, *bytes.Reader).prevRune when typeof(r) == typeid(*bytes.Reader)
+//@   ensures isBR(r) ==> br(r).i >= old(br(r).i) && int(br(r).i) <= len(br(r).s)
+//@   ensures isBR(r) && err == nil ==> brAt(r, 0) == 1 || brAt(r, 0) == 3 || brAt(r, 0) == 4
+//@   ensures isBR(r) && err == nil && brAt(r, 0) == 1 ==> len(a.IP) == 4 && forall(k, 0, 4, a.IP[k] == brAt(r, 1 + k)) && a.Port == int(brAt(r, 5)) * 256 + int(brAt(r, 6)) && br(r).i == old(br(r).i) + 7 && a.FQDN == old(a.FQDN)
+//@   ensures isBR(r) && err == nil && brAt(r, 0) == 4 ==> len(a.IP) == 16 && forall(k, 0, 16, a.IP[k] == brAt(r, 1 + k)) && a.Port == int(brAt(r, 17)) * 256 + int(brAt(r, 18)) && br(r).i == old(br(r).i) + 19 && a.FQDN == old(a.FQDN)
+//@   ensures isBR(r) && err == nil && brAt(r, 0) == 3 ==> len(a.FQDN) == int(brAt(r, 1)) && forall(k, 0, len(a.FQDN), a.FQDN[k] == brAt(r, 2 + k)) && a.Port == int(brAt(r, 2 + int(brAt(r, 1)))) * 256 + int(brAt(r, 3 + int(brAt(r, 1)))) && br(r).i == old(br(r).i) + 4 + int64(brAt(r, 1)) && a.IP == old(a.IP)
+//@   ensures err == nil ==> 0 <= a.Port && a.Port <= 65535
